@@ -216,6 +216,8 @@ where
     // Track spawned hedge tasks
     let mut hedges_spawned: usize = 0;
     let mut primary_error: Option<S::Error> = None;
+    // Number of attempts that have completed with an error
+    let mut errors_received: usize = 0;
 
     // Get delay for first hedge
     let first_delay = config.delay.get_delay(1);
@@ -259,8 +261,9 @@ where
                                     if attempt == 0 {
                                         primary_error = Some(e.clone());
                                     }
-                                    // Check if all attempts exhausted
-                                    if hedges_spawned + 1 >= max_attempts {
+                                    errors_received += 1;
+                                    // All attempts have been started and every one has failed
+                                    if errors_received >= max_attempts {
                                         // All spawned, check if this was the last result
                                         config.listeners.emit(&HedgeEvent::AllFailed {
                                             name: config.name.clone(),
